@@ -258,6 +258,27 @@ func keyStr(k Value) (string, bool) {
 		}
 	case bool:
 		return fmt.Sprintf("b:%v", k), true
+	case *StructVal:
+		// struct keys: every field must itself be a constant key
+		names := make([]string, 0, len(k.F))
+		for n := range k.F {
+			names = append(names, n)
+		}
+		sort.Strings(names)
+		var sb strings.Builder
+		sb.WriteString("st:")
+		for _, n := range names {
+			fs, ok := keyStr(k.F[n])
+			if !ok {
+				return "", false
+			}
+			sb.WriteString(n + "=" + fs + ";")
+		}
+		return sb.String(), true
+	case *FExpr:
+		if k.IsConst() {
+			return fmt.Sprintf("f:%v", k.C), true
+		}
 	}
 	return "", false
 }
